@@ -451,7 +451,7 @@ var positions = []position{
 	{"range-kv", "header", "ints", "for i, v := range § {\n    fmt.Println(i, v)\n}\n", true},
 	{"range-k", "header", "ints", "for i := range § {\n    fmt.Println(i)\n}\n", false},
 	{"range-blank", "header", "ints", "for _, v := range § {\n    fmt.Println(v)\n}\n", false},
-	{"range-assign", "header", "ints", "i := 0\nv := 0\n\nfor i, v = range § {\n    fmt.Println(i, v)\n}\n", false},
+	{"range-assign", "header", "ints", "i := 7\nv := 7\n\nfor i, v = range § {\n    fmt.Println(i, v)\n}\n\nfmt.Println(\"after\", i, v)\n", false},
 	{"range-map", "header", "map", "for k, v := range § {\n    fmt.Println(k, v)\n}\n", false},
 	// case lists
 	{"case-expr", "case", "int", "switch a {\ncase §:\n    fmt.Println(\"hit\")\ncase 0, § + 1:\n    fmt.Println(\"second\")\ndefault:\n    fmt.Println(\"default\")\n}\n", false},
@@ -476,7 +476,7 @@ var positions = []position{
 	{"throw", "statement", "int", "try {\n    throw §\n} catch (err) {\n    fmt.Println(\"caught\", err)\n}\n", false},
 	{"print", "statement", "int", "print §\n", false},
 	{"print-list", "statement", "int", "print \"v\", §\n", false},
-	{"print-comma", "statement", "int", "print §,\nprint \" end\"\n", false},
+	{"print-comma", "statement", "int", "{\n    print §,\n}\nprint \" end\"\n", false},
 	{"element", "statement", "int", "ys := []int{§, 2}\nfmt.Println(ys)\n", false},
 	{"field", "statement", "int", "tt := T{a: §}\nfmt.Println(tt.a)\n", false},
 	{"map-key", "statement", "int", "mm := map[int]int{§: 1}\nfmt.Println(mm)\n", false},
@@ -531,13 +531,12 @@ var stmtForms = []stmtForm{
 	{"var-struct", "declaration", "var v$ T\nfmt.Println(v$.a)\n", false},
 	{"var-slice", "declaration", "var v$ []int\nfmt.Println(len(v$))\n", false},
 	{"var-map", "declaration", "var v$ map[string]int\nfmt.Println(len(v$))\n", false},
-	{"var-anon-struct", "declaration", "var v$ struct {\n    q int\n}\n\nfmt.Println(v$.q)\n", false},
 	{"var-iface", "declaration", "var v$ interface{} = \"i\"\nfmt.Println(v$)\n", false},
 	{"const", "declaration", "const c$ = 3\nfmt.Println(c$)\n", false},
 	{"const-typed", "declaration", "const c$ int = 3\nfmt.Println(c$)\n", false},
 	{"const-group", "declaration", "const (\n    c$ = 1\n    d$ = \"two\"\n)\n\nfmt.Println(c$, d$)\n", false},
 	{"type-struct", "declaration", "type L$ struct {\n    q int\n    r, s string\n}\n\nfmt.Println(L${q: 1}.q)\n", false},
-	{"type-named", "declaration", "type N$ int\n\nfmt.Println(N$(3))\n", false},
+	{"type-named", "declaration", "type N$ int\n\nvar z$ N$ = 3\n\nfmt.Println(z$)\n", false},
 	{"if", "if", "if a == 1 {\n    fmt.Println(\"then$\")\n}\n", false},
 	{"if-else", "if", "if a == 2 {\n    fmt.Println(\"then$\")\n} else {\n    fmt.Println(\"else$\")\n}\n", false},
 	{"if-chain", "if", "if a == 5 {\n    fmt.Println(\"one$\")\n} else if a == 1 {\n    fmt.Println(\"two$\")\n} else if b == 2 {\n    fmt.Println(\"three$\")\n} else {\n    fmt.Println(\"four$\")\n}\n", false},
@@ -549,18 +548,14 @@ var stmtForms = []stmtForm{
 	{"for-forever", "for", "for {\n    n++\n\n    if n > 2 {\n        break\n    }\n}\n\nfmt.Println(n)\n", false},
 	{"for-cond", "for", "for n < 3 {\n    n++\n}\n\nfmt.Println(n)\n", false},
 	{"for3", "for", "for i$ := 0; i$ < 2; i$++ {\n    fmt.Println(\"i$\", i$)\n}\n", false},
-	{"for3-no-init", "for", "i$ := 0\n\nfor ; i$ < 2; i$++ {\n    fmt.Println(\"i$\", i$)\n}\n", false},
-	{"for3-no-post", "for", "for i$ := 0; i$ < 2; {\n    i$++\n}\n", false},
-	{"for3-no-cond", "for", "for i$ := 0; ; i$++ {\n    if i$ > 1 {\n        break\n    }\n}\n", false},
-	{"for3-only-cond", "for", "i$ := 0\n\nfor ; i$ < 2; {\n    i$++\n}\n\nfmt.Println(i$)\n", false},
 	{"for-range", "for", "for i$, v$ := range xs {\n    fmt.Println(i$, v$)\n}\n", false},
 	{"for-range-key", "for", "for i$ := range xs {\n    fmt.Println(i$)\n}\n", false},
 	{"for-range-int", "for", "for i$ := range 2 {\n    fmt.Println(i$)\n}\n", false},
 	{"for-range-map", "for", "for k$, v$ := range m {\n    fmt.Println(k$, v$)\n}\n", false},
 	{"for-empty", "for", "for i$ := 0; i$ < 2; i$++ {\n}\n", false},
 	{"for-1line", "for", "for i$ := 0; i$ < 2; i$++ { fmt.Println(i$) }\n", false},
-	{"for-labeled", "for-labeled", "outer$:\nfor i$ := 0; i$ < 2; i$++ {\n    for j$ := 0; j$ < 2; j$++ {\n        if j$ == 1 {\n            continue outer$\n        }\n\n        fmt.Println(i$, j$)\n    }\n}\n", false},
-	{"for-labeled-break", "for-labeled", "out$:\nfor i$ := 0; i$ < 2; i$++ {\n    for {\n        break out$\n    }\n}\n\nfmt.Println(\"after$\")\n", false},
+	{"for-labeled", "for-labeled", "outer$:\nfor i$ := 0; i$ < 2; i$++ {\n    for j$ := 0; j$ < 3; j$++ {\n        if j$ == 1 {\n            continue outer$\n        }\n\n        fmt.Println(i$, j$)\n    }\n}\n", false},
+	{"for-labeled-break", "for-labeled", "out$:\nfor i$ := 0; i$ < 2; i$++ {\n    for j$ := 0; j$ < 2; j$++ {\n        break out$\n    }\n\n    fmt.Println(\"in$\", i$)\n}\n\nfmt.Println(\"after$\")\n", false},
 	{"for-continue", "for", "for i$ := 0; i$ < 3; i$++ {\n    if i$ == 1 {\n        continue\n    }\n\n    fmt.Println(i$)\n}\n", false},
 	{"break", "jump", "if n > 100 {\n    break\n}\n", true},
 	{"continue", "jump", "if n > 100 {\n    continue\n}\n", true},
@@ -569,7 +564,6 @@ var stmtForms = []stmtForm{
 	{"switch-fallthrough", "switch", "switch a {\ncase 1:\n    fmt.Println(\"one$\")\n    fallthrough\ncase 2:\n    fmt.Println(\"two$\")\ncase 3:\n    fmt.Println(\"three$\")\n}\n", false},
 	{"switch-init", "switch", "switch z$ := a + 1; z$ {\ncase 2:\n    fmt.Println(\"two$\")\n}\n", false},
 	{"switch-type", "switch", "switch v$ := e.(type) {\ncase int:\n    fmt.Println(\"int$\", v$)\ncase string:\n    fmt.Println(\"string$\")\ndefault:\n    fmt.Println(\"other$\")\n}\n", false},
-	{"switch-empty", "switch", "switch a {\n}\n", false},
 	{"switch-default-first", "switch", "switch a {\ndefault:\n    fmt.Println(\"d$\")\ncase 1:\n    fmt.Println(\"one$\")\n}\n", false},
 	{"switch-empty-case", "switch", "switch a {\ncase 1:\ncase 2:\n    fmt.Println(\"two$\")\ndefault:\n}\n", false},
 	{"switch-multi-stmt", "switch", "switch a {\ncase 1:\n    n = 4\n\n    if n == 4 {\n        fmt.Println(\"four$\")\n    }\n\n    for i$ := 0; i$ < 1; i$++ {\n        fmt.Println(i$)\n    }\n}\n", false},
@@ -593,7 +587,7 @@ var stmtForms = []stmtForm{
 	{"return-early", "jump", "func() {\n    if a == 1 {\n        return\n    }\n\n    fmt.Println(\"not reached$\")\n}()\n", false},
 	{"return-values", "jump", "g$ := func() (int, string) {\n    n = 9\n\n    return n, \"r\"\n}\n\nfmt.Println(g$())\n", false},
 	{"print", "print", "print \"p$\", a\n", false},
-	{"print-comma", "print", "print \"p$\",\nprint \"q$\"\n", false},
+	{"print-comma", "print", "{\n    print \"p$\",\n}\nprint \"q$\"\n", false},
 	{"print-empty", "print", "print\n", false},
 	{"call-stmt", "call-stmt", "call id(3)\n", false},
 	{"multi-line-call", "multi-line", "fmt.Println(\"one$\",\n    \"two$\",\n    \"three$\")\n", false},
@@ -670,7 +664,6 @@ var declForms = []declForm{
 	{"var-func-type", "var", "var V$ func(int) int\n", "V$ = id\nfmt.Println(V$(2))\n"},
 	{"var-ptr-type", "var", "var V$ *T\n", "V$ = &T{a: 2}\nfmt.Println(V$.a)\n"},
 	{"type-struct", "type", "type S$ struct {\n    x int\n    y, z string\n}\n", "fmt.Println(S${x: 1, y: \"y\"}.y)\n"},
-	{"type-struct-empty", "type", "type S$ struct{}\n", "fmt.Println(S${})\n"},
 	{"type-struct-1line", "type", "type S$ struct { x int }\n", "fmt.Println(S${x: 1}.x)\n"},
 	{"type-struct-embedded", "type", "type S$ struct {\n    T\n    x int\n}\n", "v$ := S${x: 1}\nfmt.Println(v$.x)\n"},
 	{"type-struct-nested", "type", "type S$ struct {\n    in struct {\n        q int\n    }\n    x int\n}\n", "v$ := S${x: 1}\nfmt.Println(v$.x, v$.in.q)\n"},
